@@ -1,8 +1,877 @@
-//! C03 — not implemented yet.
+//! C03 — decision tables return what their hit policy prescribes.
+//!
+//! Implementation: a generated table rendered as DMN XML inside a one-decision model →
+//! `dmntk_model::parse` → `ModelEvaluator::new` → `evaluate_invocable` (this path includes
+//! `parse_hit_policy_attribute` and the whole of `decision_table.rs`).
+//! Model: `Dmn.DT.evaluate`; specification: `Dmn.DT.Spec.evaluate` (both through the driver).
+//!
+//! FEEL evaluation is given data for the model: every cell is evaluated here with the real
+//! FEEL evaluator exactly as `parse_decision_table` composes it — input entry *i* as
+//! `In(inputExpr_i, entry_i)` (conjoined with `In(inputExpr_i, inputValues_i)`), output entry
+//! as the expression itself or `Out(entry, outputValues)` — and the resulting matrix
+//! (true/false/other per input entry, a value per output entry) is shipped with the table's
+//! structure.
 
-use crate::report::Report;
+use crate::model::Model;
+use crate::report::{Kind, Report};
+use crate::rng::Rng;
+use crate::sexp::Sexp;
+use crate::util::guarded;
 use crate::Cfg;
+use dmntk_feel::context::FeelContext;
+use dmntk_feel::values::Value;
+use dmntk_feel::{AstNode, Name, Scope};
+use dmntk_model_evaluator::ModelEvaluator;
+use serde_json::json;
 
-pub fn run(_cfg: &Cfg) -> Report {
-  Report::new("C03", "not implemented")
+/// A value of the model layer as the S-expression of `Dmn/Driver/C03.lean`; `None` for values
+/// outside the model's value type (non-integer numbers, ranges, functions …).
+pub fn value_sexp(v: &Value) -> Option<Sexp> {
+  Some(match v {
+    Value::Null(_) => Sexp::atom("null"),
+    Value::Boolean(b) => Sexp::tagged("b", vec![Sexp::bool(*b)]),
+    Value::Number(n) => {
+      let t = format!("{}", n);
+      let i: i128 = t.parse().ok()?;
+      Sexp::tagged("n", vec![Sexp::int(i)])
+    }
+    Value::String(s) => Sexp::str(s),
+    Value::Date(d) => Sexp::tagged("a", vec![Sexp::atom("date"), Sexp::str(&d.to_string())]),
+    Value::Time(d) => Sexp::tagged("a", vec![Sexp::atom("time"), Sexp::str(&d.to_string())]),
+    Value::DateTime(d) => Sexp::tagged("a", vec![Sexp::atom("dateTime"), Sexp::str(&d.to_string())]),
+    Value::DaysAndTimeDuration(d) => Sexp::tagged("a", vec![Sexp::atom("dtDur"), Sexp::str(&d.to_string())]),
+    Value::YearsAndMonthsDuration(d) => Sexp::tagged("a", vec![Sexp::atom("ymDur"), Sexp::str(&d.to_string())]),
+    Value::List(vs) => {
+      let mut xs = vec![];
+      for x in vs.as_vec() {
+        xs.push(value_sexp(x)?);
+      }
+      Sexp::tagged("l", xs)
+    }
+    Value::Context(ctx) => {
+      let mut xs = vec![];
+      for (k, x) in ctx.get_entries() {
+        xs.push(Sexp::list(vec![Sexp::str(&k.to_string()), value_sexp(x)?]));
+      }
+      Sexp::tagged("c", xs)
+    }
+    _ => return None,
+  })
+}
+
+pub fn xml_escape(s: &str) -> String {
+  s.replace('&', "&amp;").replace('<', "&lt;").replace('>', "&gt;").replace('"', "&quot;")
+}
+
+#[derive(Clone, Copy, PartialEq, Debug)]
+enum Ty {
+  Num,
+  Str,
+  Bool,
+}
+
+impl Ty {
+  fn type_ref(self) -> &'static str {
+    match self {
+      Ty::Num => "number",
+      Ty::Str => "string",
+      Ty::Bool => "boolean",
+    }
+  }
+}
+
+const STRS: [&str; 5] = ["a", "b", "c", "d", "e"];
+
+fn lit(ty: Ty, rng: &mut Rng) -> String {
+  match ty {
+    Ty::Num => format!("{}", rng.range(1, 6)),
+    Ty::Str => format!("\"{}\"", rng.pick(&STRS)),
+    Ty::Bool => (if rng.chance(1, 2) { "true" } else { "false" }).to_string(),
+  }
+}
+
+/// An input entry and a value that satisfies it (FEEL text), when there is an obvious one.
+fn input_entry(ty: Ty, rng: &mut Rng) -> (String, &'static str, Option<String>) {
+  match ty {
+    Ty::Bool => match rng.below(3) {
+      0 => ("-".into(), "dash", None),
+      1 => ("true".into(), "literal", Some("true".into())),
+      _ => ("false".into(), "literal", Some("false".into())),
+    },
+    Ty::Str => match rng.below(6) {
+      0 => ("-".into(), "dash", None),
+      1 | 2 => {
+        let l = lit(ty, rng);
+        (l.clone(), "literal", Some(l))
+      }
+      3 | 4 => {
+        let a = lit(ty, rng);
+        let b = lit(ty, rng);
+        (format!("{},{}", a, b), "disjunction", Some(if rng.chance(1, 2) { a } else { b }))
+      }
+      _ => {
+        let a = lit(ty, rng);
+        (format!("not({})", a), "not", None)
+      }
+    },
+    Ty::Num => match rng.below(10) {
+      0 => ("-".into(), "dash", None),
+      1 | 2 => {
+        let l = lit(ty, rng);
+        (l.clone(), "literal", Some(l))
+      }
+      3 | 4 => {
+        let k = rng.range(1, 6);
+        match rng.below(4) {
+          0 => (format!("< {}", k), "comparison", Some(format!("{}", k - 1))),
+          1 => (format!("<= {}", k), "comparison", Some(format!("{}", k))),
+          2 => (format!("> {}", k), "comparison", Some(format!("{}", k + 1))),
+          _ => (format!(">= {}", k), "comparison", Some(format!("{}", k))),
+        }
+      }
+      5 | 6 => {
+        let lo = rng.range(1, 4);
+        let hi = lo + rng.range(1, 3);
+        let (ob, cb) = (*rng.pick(&["[", "(", "]"]), *rng.pick(&["]", ")", "["]));
+        (format!("{}{}..{}{}", ob, lo, hi, cb), "interval", Some(format!("{}", if ob == "[" { lo } else { lo + 1 })))
+      }
+      7 | 8 => {
+        let n = 2 + rng.below(2);
+        let xs: Vec<String> = (0..n).map(|_| lit(ty, rng)).collect();
+        (xs.join(","), "disjunction", Some(rng.pick(&xs).clone()))
+      }
+      _ => {
+        if rng.chance(1, 2) {
+          (format!("not({})", lit(ty, rng)), "not", None)
+        } else {
+          (format!("not({},{})", lit(ty, rng), lit(ty, rng)), "not", None)
+        }
+      }
+    },
+  }
+}
+
+struct InClause {
+  name: String,
+  ty: Ty,
+  input_values: Option<String>,
+}
+
+struct OutClause {
+  name: Option<String>,
+  ty: Ty,
+  output_values: Option<String>,
+  default: Option<String>,
+}
+
+struct GenRule {
+  inputs: Vec<String>,
+  outputs: Vec<String>,
+}
+
+struct GenTable {
+  hit_policy: Option<&'static str>,
+  aggregation: Option<&'static str>,
+  ins: Vec<InClause>,
+  outs: Vec<OutClause>,
+  rules: Vec<GenRule>,
+}
+
+const POLICIES: [(Option<&str>, Option<&str>, &str); 13] = [
+  (Some("UNIQUE"), None, "U"),
+  (Some("ANY"), None, "A"),
+  (Some("PRIORITY"), None, "P"),
+  (Some("FIRST"), None, "F"),
+  (Some("RULE ORDER"), None, "R"),
+  (Some("OUTPUT ORDER"), None, "O"),
+  (Some("COLLECT"), None, "C"),
+  (Some("COLLECT"), Some("SUM"), "C+"),
+  (Some("COLLECT"), Some("MIN"), "C<"),
+  (Some("COLLECT"), Some("MAX"), "C>"),
+  (Some("COLLECT"), Some("COUNT"), "C#"),
+  (None, None, "absent"),
+  (Some(" FIRST "), None, "F-padded"),
+];
+
+fn gen_table(rng: &mut Rng, policy_ix: usize) -> (GenTable, Vec<Vec<Option<String>>>) {
+  let (hp, agg, tag) = POLICIES[policy_ix];
+  let n_in = 1 + rng.below(4) as usize;
+  let n_out = 1 + rng.below(3) as usize;
+  let n_rules = rng.below(9) as usize;
+  let aggregating = matches!(tag, "C+" | "C<" | "C>");
+  let prioritising = matches!(tag, "P" | "O");
+  let mut ins = vec![];
+  for i in 0..n_in {
+    let ty = match rng.below(6) {
+      0 => Ty::Bool,
+      1 | 2 => Ty::Str,
+      _ => Ty::Num,
+    };
+    let input_values = if rng.chance(1, 5) {
+      Some(match ty {
+        Ty::Num => "1,2,3,4".to_string(),
+        Ty::Str => "\"a\",\"b\",\"c\"".to_string(),
+        Ty::Bool => "true,false".to_string(),
+      })
+    } else {
+      None
+    };
+    ins.push(InClause { name: format!("i{}", i + 1), ty, input_values });
+  }
+  let mut outs = vec![];
+  for i in 0..n_out {
+    let ty = if aggregating {
+      if rng.chance(3, 4) {
+        Ty::Num
+      } else {
+        Ty::Str
+      }
+    } else {
+      match rng.below(5) {
+        0 => Ty::Bool,
+        1 | 2 => Ty::Str,
+        _ => Ty::Num,
+      }
+    };
+    let name = if n_out > 1 {
+      match rng.below(20) {
+        0 => None,
+        1 => Some("o1".to_string()),
+        // reversed names: the context is keyed in name order, not clause order
+        2 | 3 => Some(format!("z{}", 9 - i)),
+        _ => Some(format!("o{}", i + 1)),
+      }
+    } else if rng.chance(1, 2) {
+      Some("o1".to_string())
+    } else {
+      None
+    };
+    let p_ov = if prioritising { 4 } else { 1 };
+    let output_values = if rng.chance(p_ov, 5) {
+      let mut pool: Vec<String> = match ty {
+        Ty::Num => (1..=6).map(|k| k.to_string()).collect(),
+        Ty::Str => STRS.iter().map(|s| format!("\"{}\"", s)).collect(),
+        Ty::Bool => vec!["true".into(), "false".into()],
+      };
+      // shuffle, then keep a prefix (values missing from the list make `Out` produce null)
+      for k in (1..pool.len()).rev() {
+        let j = rng.below(k as u64 + 1) as usize;
+        pool.swap(k, j);
+      }
+      let keep = if rng.chance(2, 3) { pool.len() } else { 1 + rng.below(pool.len() as u64) as usize };
+      pool.truncate(keep);
+      Some(pool.join(","))
+    } else {
+      None
+    };
+    let default = if rng.chance(1, 3) { Some(lit(ty, rng)) } else { None };
+    outs.push(OutClause { name, ty, output_values, default });
+  }
+  let mut rules = vec![];
+  let mut witnesses: Vec<Vec<Option<String>>> = vec![];
+  for _ in 0..n_rules {
+    let mut inputs = vec![];
+    let mut wit = vec![];
+    for c in &ins {
+      let (text, _, w) = input_entry(c.ty, rng);
+      inputs.push(text);
+      wit.push(w);
+    }
+    let mut outputs = vec![];
+    for c in &outs {
+      // a small pool per clause so that ANY sees equal outputs and priorities tie
+      let narrow = rng.chance(1, 2);
+      let t = match c.ty {
+        Ty::Num => format!("{}", rng.range(1, if narrow { 2 } else { 6 })),
+        Ty::Str => format!("\"{}\"", STRS[rng.below(if narrow { 2 } else { 5 }) as usize]),
+        Ty::Bool => lit(Ty::Bool, rng),
+      };
+      // occasionally a value of another type, or null
+      let t = match rng.below(40) {
+        0 => "null".to_string(),
+        1 => lit(Ty::Str, rng),
+        2 => lit(Ty::Num, rng),
+        _ => t,
+      };
+      outputs.push(t);
+    }
+    rules.push(GenRule { inputs, outputs });
+    witnesses.push(wit);
+  }
+  // duplicated rules make ANY / UNIQUE / PRIORITY ties frequent
+  if !rules.is_empty() && rng.chance(1, 3) && rules.len() < 8 {
+    let k = rng.below(rules.len() as u64) as usize;
+    let dup = GenRule { inputs: rules[k].inputs.clone(), outputs: if rng.chance(1, 2) { rules[k].outputs.clone() } else { rules[rules.len() - 1].outputs.clone() } };
+    let w = witnesses[k].clone();
+    rules.push(dup);
+    witnesses.push(w);
+  }
+  (GenTable { hit_policy: hp, aggregation: agg, ins, outs, rules }, witnesses)
+}
+
+/// A generated one-decision model (used by C12 as a base for fault enumeration).
+pub fn sample_model_xml(rng: &mut Rng) -> String {
+  let ix = rng.below(POLICIES.len() as u64) as usize;
+  let (t, _) = gen_table(rng, ix);
+  table_xml(&t)
+}
+
+fn table_xml(t: &GenTable) -> String {
+  let mut s = String::new();
+  s.push_str(r#"<?xml version="1.0" encoding="UTF-8"?><definitions namespace="ns" name="m" id="_m" xmlns="https://www.omg.org/spec/DMN/20191111/MODEL/">"#);
+  s.push_str(r#"<decision name="D" id="_d"><variable name="D"/>"#);
+  for (i, _) in t.ins.iter().enumerate() {
+    s.push_str(&format!(r##"<informationRequirement id="_r{}"><requiredInput href="#_i{}"/></informationRequirement>"##, i + 1, i + 1));
+  }
+  s.push_str("<decisionTable");
+  if let Some(hp) = t.hit_policy {
+    s.push_str(&format!(" hitPolicy=\"{}\"", hp));
+  }
+  if let Some(a) = t.aggregation {
+    s.push_str(&format!(" aggregation=\"{}\"", a));
+  }
+  s.push('>');
+  for c in &t.ins {
+    s.push_str(&format!("<input><inputExpression><text>{}</text></inputExpression>", xml_escape(&c.name)));
+    if let Some(iv) = &c.input_values {
+      s.push_str(&format!("<inputValues><text>{}</text></inputValues>", xml_escape(iv)));
+    }
+    s.push_str("</input>");
+  }
+  for c in &t.outs {
+    s.push_str("<output");
+    if let Some(n) = &c.name {
+      s.push_str(&format!(" name=\"{}\"", n));
+    }
+    s.push('>');
+    if let Some(ov) = &c.output_values {
+      s.push_str(&format!("<outputValues><text>{}</text></outputValues>", xml_escape(ov)));
+    }
+    if let Some(d) = &c.default {
+      s.push_str(&format!("<defaultOutputEntry><text>{}</text></defaultOutputEntry>", xml_escape(d)));
+    }
+    s.push_str("</output>");
+  }
+  for r in &t.rules {
+    s.push_str("<rule>");
+    for e in &r.inputs {
+      s.push_str(&format!("<inputEntry><text>{}</text></inputEntry>", xml_escape(e)));
+    }
+    for e in &r.outputs {
+      s.push_str(&format!("<outputEntry><text>{}</text></outputEntry>", xml_escape(e)));
+    }
+    s.push_str("</rule>");
+  }
+  s.push_str("</decisionTable></decision>");
+  for (i, c) in t.ins.iter().enumerate() {
+    s.push_str(&format!(r#"<inputData name="{}" id="_i{}"><variable typeRef="{}" name="{}"/></inputData>"#, c.name, i + 1, c.ty.type_ref(), c.name));
+  }
+  s.push_str("</definitions>");
+  s
+}
+
+/// The generated table as the `DecisionTable` value the recogniser / XML parser deliver
+/// (second observation point: `dmntk_model_evaluator::build_decision_table_evaluator`).
+fn table_struct(t: &GenTable) -> dmntk_model::model::DecisionTable {
+  use dmntk_model::model::*;
+  let hit_policy = match (t.hit_policy.map(|s| s.trim()), t.aggregation) {
+    (None, _) | (Some("UNIQUE"), _) => HitPolicy::Unique,
+    (Some("ANY"), _) => HitPolicy::Any,
+    (Some("PRIORITY"), _) => HitPolicy::Priority,
+    (Some("FIRST"), _) => HitPolicy::First,
+    (Some("RULE ORDER"), _) => HitPolicy::RuleOrder,
+    (Some("OUTPUT ORDER"), _) => HitPolicy::OutputOrder,
+    (_, None) => HitPolicy::Collect(BuiltinAggregator::List),
+    (_, Some("SUM")) => HitPolicy::Collect(BuiltinAggregator::Sum),
+    (_, Some("MIN")) => HitPolicy::Collect(BuiltinAggregator::Min),
+    (_, Some("MAX")) => HitPolicy::Collect(BuiltinAggregator::Max),
+    (_, Some(_)) => HitPolicy::Collect(BuiltinAggregator::Count),
+  };
+  DecisionTable {
+    information_item_name: None,
+    input_clauses: t.ins.iter().map(|c| InputClause { input_expression: c.name.clone(), input_values: c.input_values.clone() }).collect(),
+    output_clauses: t
+      .outs
+      .iter()
+      .map(|c| OutputClause { type_ref: None, name: c.name.clone(), output_values: c.output_values.clone(), default_output_entry: c.default.clone() })
+      .collect(),
+    annotations: vec![],
+    rules: t
+      .rules
+      .iter()
+      .map(|r| DecisionRule {
+        input_entries: r.inputs.iter().map(|e| InputEntry { text: e.clone() }).collect(),
+        output_entries: r.outputs.iter().map(|e| OutputEntry { text: e.clone() }).collect(),
+        annotation_entries: vec![],
+      })
+      .collect(),
+    hit_policy,
+    aggregation: None,
+    preferred_orientation: DecisionTableOrientation::RuleAsRow,
+    output_label: None,
+  }
+}
+
+/// Runs `build_decision_table_evaluator` on a table value under the given scope context.
+fn direct_eval(dt: &dmntk_model::model::DecisionTable, seen: &FeelContext) -> String {
+  let r = guarded(|| {
+    let scope: Scope = seen.clone().into();
+    match dmntk_model_evaluator::build_decision_table_evaluator(&scope, dt) {
+      Ok(ev) => Ok(ev(&scope)),
+      Err(e) => Err(e.to_string()),
+    }
+  });
+  match r {
+    Ok(Ok(v)) => match value_sexp(&v) {
+      Some(s) => format!("(ok {})", s),
+      None => format!("(unsupported {})", v),
+    },
+    Ok(Err(e)) => format!("(build-error {})", e.replace(' ', "_")),
+    Err(p) => format!("(panic {})", p.replace(' ', "_")),
+  }
+}
+
+/// The `EX_*` tables of `examples/src/examples/valid.rs` (box-drawing text), read at run time.
+fn ex_table_texts() -> Vec<(String, String)> {
+  let mut res = vec![];
+  let src = match std::fs::read_to_string("/repo/examples/src/examples/valid.rs") {
+    Ok(s) => s,
+    Err(_) => return res,
+  };
+  let mut rest = src.as_str();
+  while let Some(p) = rest.find("pub const EX_") {
+    let tail = &rest[p..];
+    let name_end = tail.find(':').unwrap_or(0);
+    let name = tail[10..name_end].to_string();
+    let (open, close) = match tail.find("r#\"") {
+      Some(o) => match tail[o + 3..].find("\"#") {
+        Some(c) => (o + 3, o + 3 + c),
+        None => break,
+      },
+      None => break,
+    };
+    res.push((name, tail[open..close].to_string()));
+    rest = &tail[close..];
+  }
+  res
+}
+
+/// A recognised table as a `GenTable` (input expressions must be plain names).
+fn gen_of_recognised(dt: &dmntk_model::model::DecisionTable) -> Option<GenTable> {
+  use dmntk_model::model::{BuiltinAggregator, HitPolicy};
+  let (hp, agg): (&'static str, Option<&'static str>) = match dt.hit_policy {
+    HitPolicy::Unique => ("UNIQUE", None),
+    HitPolicy::Any => ("ANY", None),
+    HitPolicy::Priority => ("PRIORITY", None),
+    HitPolicy::First => ("FIRST", None),
+    HitPolicy::RuleOrder => ("RULE ORDER", None),
+    HitPolicy::OutputOrder => ("OUTPUT ORDER", None),
+    HitPolicy::Collect(BuiltinAggregator::List) => ("COLLECT", None),
+    HitPolicy::Collect(BuiltinAggregator::Sum) => ("COLLECT", Some("SUM")),
+    HitPolicy::Collect(BuiltinAggregator::Min) => ("COLLECT", Some("MIN")),
+    HitPolicy::Collect(BuiltinAggregator::Max) => ("COLLECT", Some("MAX")),
+    HitPolicy::Collect(BuiltinAggregator::Count) => ("COLLECT", Some("COUNT")),
+  };
+  let mut ins = vec![];
+  for c in &dt.input_clauses {
+    let n = c.input_expression.trim();
+    if n.is_empty() || !n.chars().all(|ch| ch.is_alphanumeric() || ch == ' ' || ch == '_') {
+      return None;
+    }
+    ins.push(InClause { name: n.to_string(), ty: Ty::Num, input_values: c.input_values.clone() });
+  }
+  let outs = dt.output_clauses.iter().map(|c| OutClause { name: c.name.clone(), ty: Ty::Num, output_values: c.output_values.clone(), default: c.default_output_entry.clone() }).collect();
+  let rules = dt
+    .rules
+    .iter()
+    .map(|r| GenRule { inputs: r.input_entries.iter().map(|e| e.text.clone()).collect(), outputs: r.output_entries.iter().map(|e| e.text.clone()).collect() })
+    .collect();
+  Some(GenTable { hit_policy: Some(hp), aggregation: agg, ins, outs, rules })
+}
+
+/// Candidate input values (FEEL text) read off the entries of one input column: the literals
+/// that occur in them, and the neighbours of the numbers.
+fn candidates(t: &GenTable, col: usize) -> Vec<String> {
+  let mut c: Vec<String> = vec!["null".into(), "0".into(), "\"?\"".into(), "true".into(), "false".into()];
+  for r in &t.rules {
+    if let Some(text) = r.inputs.get(col) {
+      let b: Vec<char> = text.chars().collect();
+      let mut i = 0;
+      while i < b.len() {
+        if b[i] == '"' {
+          let mut j = i + 1;
+          while j < b.len() && b[j] != '"' {
+            j += 1;
+          }
+          c.push(b[i..(j + 1).min(b.len())].iter().collect());
+          i = j + 1;
+        } else if b[i].is_ascii_digit() {
+          let mut j = i;
+          while j < b.len() && b[j].is_ascii_digit() {
+            j += 1;
+          }
+          // skip decimals: the model's numbers are integers
+          if j < b.len() && b[j] == '.' && j + 1 < b.len() && b[j + 1].is_ascii_digit() {
+            while j < b.len() && (b[j].is_ascii_digit() || b[j] == '.') {
+              j += 1;
+            }
+          } else if let Ok(n) = b[i..j].iter().collect::<String>().parse::<i64>() {
+            c.push(format!("{}", n));
+            c.push(format!("{}", n + 1));
+            c.push(format!("{}", n - 1));
+          }
+          i = j;
+        } else {
+          i += 1;
+        }
+      }
+    }
+  }
+  c.sort();
+  c.dedup();
+  c
+}
+
+fn eval_text(scope: &Scope, text: &str) -> Option<Value> {
+  let n = dmntk_feel_parser::parse_expression(scope, text, false).ok()?;
+  dmntk_feel_evaluator::evaluate(scope, &n).ok()
+}
+
+/// What an optional unary-tests cell evaluates to (output values, default output entry).
+fn cell_sexp(scope: &Scope, text: &Option<String>) -> Option<Sexp> {
+  match text {
+    None => Some(Sexp::atom("none")),
+    Some(t) => {
+      let node = dmntk_feel_parser::parse_unary_tests(scope, t, false).ok()?;
+      match dmntk_feel_evaluator::evaluate(scope, &node).ok()? {
+        Value::ExpressionList(vs) => {
+          let mut xs = vec![];
+          for v in vs.as_vec() {
+            xs.push(value_sexp(v)?);
+          }
+          Some(Sexp::tagged("el", xs))
+        }
+        _ => Some(Sexp::atom("other")),
+      }
+    }
+  }
+}
+
+fn attr_sexp(a: Option<&str>) -> Sexp {
+  match a {
+    None => Sexp::atom("none"),
+    Some(t) => Sexp::str(t.trim()),
+  }
+}
+
+/// The request for the driver: the table's structure and the matrix of evaluated cells under
+/// the given input context. `None` when a cell is outside the model's value type.
+fn request(t: &GenTable, ctx: &FeelContext) -> Option<String> {
+  let scope: Scope = ctx.clone().into();
+  let mut names = vec![];
+  for c in &t.outs {
+    if let Some(n) = &c.name {
+      // decision_table.rs:288: the component name is what `parse_name` makes of the attribute
+      names.push(Sexp::str(&dmntk_feel_parser::parse_name(&scope, n, false).ok()?.to_string()));
+    }
+  }
+  let mut ovals = vec![];
+  let mut defaults = vec![];
+  let mut ov_nodes = vec![];
+  for c in &t.outs {
+    ovals.push(cell_sexp(&scope, &c.output_values)?);
+    defaults.push(cell_sexp(&scope, &c.default)?);
+    ov_nodes.push(match &c.output_values {
+      Some(t) => Some(dmntk_feel_parser::parse_unary_tests(&scope, t, false).ok()?),
+      None => None,
+    });
+  }
+  let mut in_nodes = vec![];
+  for c in &t.ins {
+    let ie = dmntk_feel_parser::parse_expression(&scope, &c.name, false).ok()?;
+    let iv = match &c.input_values {
+      Some(t) => Some(dmntk_feel_parser::parse_unary_tests(&scope, t, false).ok()?),
+      None => None,
+    };
+    in_nodes.push((ie, iv));
+  }
+  let mut rules = vec![];
+  for r in &t.rules {
+    let mut ins = vec![];
+    for (i, (ie, iv)) in in_nodes.iter().enumerate() {
+      let entry = dmntk_feel_parser::parse_unary_tests(&scope, &r.inputs[i], false).ok()?;
+      // decision_table.rs:298-306
+      let node = match iv {
+        Some(ivn) => {
+          let left = AstNode::In(Box::new(ie.clone()), Box::new(ivn.clone()));
+          let right = AstNode::In(Box::new(ie.clone()), Box::new(entry));
+          AstNode::And(Box::new(left), Box::new(right))
+        }
+        None => AstNode::In(Box::new(ie.clone()), Box::new(entry)),
+      };
+      let v = dmntk_feel_evaluator::evaluate(&scope, &node).ok()?;
+      ins.push(Sexp::atom(match v {
+        Value::Boolean(true) => "t",
+        Value::Boolean(false) => "f",
+        _ => "o",
+      }));
+    }
+    let mut outs = vec![];
+    for (i, ovn) in ov_nodes.iter().enumerate() {
+      let entry = dmntk_feel_parser::parse_expression(&scope, &r.outputs[i], false).ok()?;
+      // decision_table.rs:312-317
+      let node = match ovn {
+        Some(n) => AstNode::Out(Box::new(entry), Box::new(n.clone())),
+        None => entry,
+      };
+      outs.push(value_sexp(&dmntk_feel_evaluator::evaluate(&scope, &node).ok()?)?);
+    }
+    rules.push(Sexp::list(vec![Sexp::list(ins), Sexp::list(outs)]));
+  }
+  Some(
+    Sexp::list(vec![
+      Sexp::atom("c03"),
+      Sexp::atom("eval"),
+      attr_sexp(t.hit_policy),
+      attr_sexp(t.aggregation),
+      Sexp::list(names),
+      Sexp::list(ovals),
+      Sexp::list(defaults),
+      Sexp::list(rules),
+    ])
+    .to_string(),
+  )
+}
+
+fn random_value(ty: Ty, rng: &mut Rng) -> String {
+  match ty {
+    Ty::Num => format!("{}", rng.range(0, 7)),
+    Ty::Str => format!("\"{}\"", rng.pick(&["a", "b", "c", "d", "e", "f"])),
+    Ty::Bool => (if rng.chance(1, 2) { "true" } else { "false" }).to_string(),
+  }
+}
+
+/// Input tuples steered by the rule entries: per input either the witness value of a randomly
+/// chosen rule's entry (biased towards one "target" rule so that whole rules match), a random
+/// value of the pool, or null / absent.
+fn input_tuple(t: &GenTable, wits: &[Vec<Option<String>>], rng: &mut Rng) -> Vec<Option<String>> {
+  let target = if wits.is_empty() { None } else { Some(rng.below(wits.len() as u64) as usize) };
+  let mode = rng.below(10);
+  let mut tuple = vec![];
+  for (i, c) in t.ins.iter().enumerate() {
+    let from_rule = |k: usize, rng: &mut Rng| wits[k][i].clone().unwrap_or_else(|| random_value(c.ty, rng));
+    let v = match (target, mode) {
+      (Some(k), 0..=5) => Some(from_rule(k, rng)),
+      (Some(_), 6 | 7) => {
+        let k = rng.below(wits.len() as u64) as usize;
+        Some(from_rule(k, rng))
+      }
+      (_, 8) => {
+        if rng.chance(1, 4) {
+          if rng.chance(1, 2) {
+            Some("null".to_string())
+          } else {
+            None
+          }
+        } else {
+          Some(random_value(c.ty, rng))
+        }
+      }
+      _ => Some(random_value(c.ty, rng)),
+    };
+    tuple.push(v);
+  }
+  tuple
+}
+
+fn context_of(t: &GenTable, tuple: &[Option<String>]) -> (FeelContext, FeelContext, String) {
+  // `sent`: what the caller passes; `seen`: what the decision logic sees (absent ⇒ null)
+  let scope = Scope::default();
+  let mut sent = FeelContext::default();
+  let mut seen = FeelContext::default();
+  let mut text = vec![];
+  for (c, v) in t.ins.iter().zip(tuple.iter()) {
+    let name: Name = c.name.as_str().into();
+    match v {
+      Some(tv) => {
+        let val = eval_text(&scope, tv).unwrap_or(Value::Null(None));
+        sent.set_entry(&name, val.clone());
+        seen.set_entry(&name, val);
+        text.push(format!("{}: {}", c.name, tv));
+      }
+      None => {
+        seen.set_entry(&name, Value::Null(None));
+      }
+    }
+  }
+  (sent, seen, format!("{{{}}}", text.join(", ")))
+}
+
+pub fn run(cfg: &Cfg) -> Report {
+  let mut rep = Report::new(
+    "C03",
+    "generated decision tables (1..4 inputs, 1..3 outputs, 0..8 rules (+1 duplicate), all 11 hit policies/aggregators plus absent/padded attribute, input entries '-', literals, comparisons, intervals, disjunctions, not(...), optional input values, output values, default outputs) rendered as DMN XML and evaluated through parse → ModelEvaluator::new → evaluate_invocable, with input tuples drawn from the rule entries. Non-trivial: the table has at least one rule; distinct by (XML, input context).",
+  );
+  let thorough = cfg.tier == "thorough";
+  let n_tables = if thorough { 60_000 } else { 6_000 };
+  let tuples_per_table = 4;
+  let mut rng = Rng::new(cfg.seed);
+  let mut model = Model::start(&cfg.driver);
+
+  struct Case {
+    req: String,
+    xml: String,
+    input: String,
+    policy: &'static str,
+    impl_obs: String,
+    /// `build_decision_table_evaluator` on the same table (None: only one observation point)
+    direct_obs: Option<String>,
+    family: &'static str,
+    n_out: usize,
+    any_default: bool,
+  }
+  let mut cases: Vec<Case> = vec![];
+  for ti in 0..n_tables {
+    let policy_ix = if ti % 16 < 11 { ti % 16 } else { rng.below(POLICIES.len() as u64) as usize };
+    let (t, wits) = gen_table(&mut rng, policy_ix);
+    let xml = table_xml(&t);
+    let built = guarded(|| match dmntk_model::parse(&xml) {
+      Ok(d) => ModelEvaluator::new(&d).map_err(|e| format!("build-error: {}", e)),
+      Err(e) => Err(format!("parse-error: {}", e)),
+    });
+    let me = match built {
+      Ok(Ok(me)) => me,
+      Ok(Err(e)) => {
+        rep.hit("generated table rejected");
+        rep.disagree(Kind::ImplVsModel, "xml", "a generated well-formed table does not load", &xml, &e, "a built model");
+        continue;
+      }
+      Err(p) => {
+        rep.disagree(Kind::ImplVsSpec, "xml", "panic while loading a generated well-formed table", &xml, &p, "a built model");
+        continue;
+      }
+    };
+    let dt = table_struct(&t);
+    rep.hit(&format!("policy:{}", POLICIES[policy_ix].2));
+    rep.hit(&format!("rules:{}", t.rules.len()));
+    rep.hit(&format!("inputs:{} outputs:{}", t.ins.len(), t.outs.len()));
+    for _ in 0..tuples_per_table {
+      let tuple = input_tuple(&t, &wits, &mut rng);
+      let (sent, seen, input_text) = context_of(&t, &tuple);
+      let req = match request(&t, &seen) {
+        Some(r) => r,
+        None => {
+          rep.hit("cell outside the model's value type (skipped)");
+          continue;
+        }
+      };
+      let obs = match guarded(|| me.evaluate_invocable("D", &sent)) {
+        Ok(v) => match value_sexp(&v) {
+          Some(s) => format!("(ok {})", s),
+          None => format!("(unsupported {})", v),
+        },
+        Err(p) => format!("(panic {})", p.replace(' ', "_")),
+      };
+      cases.push(Case {
+        req,
+        xml: xml.clone(),
+        input: input_text,
+        policy: POLICIES[policy_ix].2,
+        impl_obs: obs,
+        direct_obs: Some(direct_eval(&dt, &seen)),
+        family: "xml",
+        n_out: t.outs.len(),
+        any_default: t.outs.iter().any(|c| c.default.is_some()),
+      });
+    }
+  }
+  // the shipped EX_* tables, recognised from their box-drawing text
+  let mut n_ex = 0;
+  for (name, text) in ex_table_texts() {
+    let dt = match guarded(|| dmntk_recognizer::build(&text)) {
+      Ok(Ok(dt)) => dt,
+      _ => {
+        rep.hit("EX table not recognised (skipped)");
+        continue;
+      }
+    };
+    let t = match gen_of_recognised(&dt) {
+      Some(t) => t,
+      None => {
+        rep.hit("EX table with a non-name input expression (skipped)");
+        continue;
+      }
+    };
+    n_ex += 1;
+    let cands: Vec<Vec<String>> = (0..t.ins.len()).map(|i| candidates(&t, i)).collect();
+    let n_tuples = if thorough { 200 } else { 40 };
+    for _ in 0..n_tuples {
+      let tuple: Vec<Option<String>> = cands.iter().map(|c| Some(rng.pick(c).clone())).collect();
+      let (_, seen, input_text) = context_of(&t, &tuple);
+      let req = match request(&t, &seen) {
+        Some(r) => r,
+        None => {
+          rep.hit("cell outside the model's value type (skipped)");
+          continue;
+        }
+      };
+      let obs = direct_eval(&dt, &seen);
+      cases.push(Case {
+        req,
+        xml: format!("EX_{} (examples/src/examples/valid.rs)", name),
+        input: input_text,
+        policy: POLICIES.iter().find(|p| p.0 == t.hit_policy && p.1 == t.aggregation).map(|p| p.2).unwrap_or("?"),
+        impl_obs: obs,
+        direct_obs: None,
+        family: "recognised",
+        n_out: t.outs.len(),
+        any_default: t.outs.iter().any(|c| c.default.is_some()),
+      });
+    }
+  }
+  rep.extra.insert("ex_tables_used".into(), json!(n_ex));
+  let reqs: Vec<String> = cases.iter().map(|c| c.req.clone()).collect();
+  let answers = model.ask_batch(&reqs);
+  for (c, ans) in cases.iter().zip(answers.iter()) {
+    let key = format!("{}|{}", c.xml, c.input);
+    rep.case(&key, c.req.contains("((t") || c.req.contains("((f") || c.req.contains("((o"));
+    let parsed = Sexp::parse(ans);
+    let (m, s, n) = match parsed.as_ref().and_then(|p| p.as_list()) {
+      Some([m, s, n]) => (m.to_string(), s.to_string(), n.as_atom().and_then(|a| a.parse::<usize>().ok()).unwrap_or(0)),
+      _ => {
+        rep.disagree(Kind::ImplVsModel, "eval", "driver-error", &c.req, &c.impl_obs, ans);
+        continue;
+      }
+    };
+    rep.hit(&format!("matching rules:{}", if n > 3 { "4+".to_string() } else { n.to_string() }));
+    rep.hit(&format!("policy {} × matches {}", c.policy, if n > 1 { "several" } else if n == 1 { "one" } else { "none" }));
+    let input = format!("{} | input {} | {}", c.xml, c.input, c.req);
+    rep.hit(&format!("observation point: {}", c.family));
+    if c.impl_obs != m {
+      rep.disagree(Kind::ImplVsModel, c.family, &format!("hit policy {}: implementation differs from the model", c.policy), &input, &c.impl_obs, &m);
+    }
+    if let Some(d) = &c.direct_obs {
+      if d != &c.impl_obs {
+        rep.disagree(Kind::ImplVsModel, "direct", "build_decision_table_evaluator and the XML path disagree on the same table", &input, d, &c.impl_obs);
+      }
+    }
+    let spec = format!("(ok {})", s);
+    if c.impl_obs != spec {
+      let sig = if c.impl_obs.starts_with("(panic") {
+        format!("hit policy {}: panic {}", c.policy, c.impl_obs)
+      } else if n == 0 && c.n_out > 1 && c.any_default {
+        "no rule matches, several output clauses with default entries: result is not the context of the defaults".to_string()
+      } else if c.policy == "C>" && n > 1 {
+        "C> over matching outputs that include null is not null (max skips nulls, min does not)".to_string()
+      } else {
+        format!("hit policy {}: result differs from what the policy prescribes", c.policy)
+      };
+      rep.disagree(Kind::ImplVsSpec, "spec", &sig, &input, &c.impl_obs, &spec);
+    }
+    if n >= 2 {
+      rep.sample(json!({"xml": c.xml, "input": c.input, "request": c.req, "implementation": c.impl_obs, "model_spec_matches": ans}));
+    }
+  }
+  rep.model_requests = model.requests;
+  rep
 }
